@@ -84,3 +84,66 @@ MANIFEST_TEXT = {
                 level="Generated-history exploration with heavy Parse(nil); exact oracle for n/err and stream position.",
                 note=NOTE_PBT),
 }
+
+CHECKS["C15"] = dict(
+    parser_hist("TestC15", 3000, 8000, subchecks=8),
+    rule=("stateful histories over lz.ParserBuffer used directly (kind BUF: Init, Write, ReadFrom, Reset, Shrink, ReadAt, "
+          "PeekAt, ByteAt, the harness moving W) and through the Parser interface of all 7 kinds, against a list-of-bytes "
+          "model predicting every (n, err); offsets drawn around both ends of the retained range; readers with short "
+          "reads and errors; Reset(data) with spare capacity and with oversize data. Non-trivial: a Shrink>0 followed by "
+          ">= 2 reads, or a ReadFrom that stopped at the capacity limit."),
+    assumptions=ASSUME_COMMON,
+)
+MANIFEST_TEXT["C15"] = dict(
+    engine="parser-history",
+    technique="stateful model-based property testing (rapid) against a list-of-bytes model of the sliding buffer",
+    level="Generated-history exploration; the model predicts every return value exactly, so any deviation is a counterexample.",
+    note=NOTE_PBT)
+
+CHECKS["C08"] = dict(
+    parser_hist("TestC08", 1500, 4000),
+    rule=("WrappedParser histories: accepted config with ShrinkSize < BufferSize of each of the 7 kinds, input of 0..6 "
+          "buffer fills (incl. exact multiples of BlockSize/BufferSize), scripted reader with chunk sizes 1/short/whole, "
+          "(0,nil) reads, data+io.EOF and injected errors with or without data; Parse is called until io.EOF has been "
+          "returned 4 times. Oracles: reference expansion equals the bytes handed out; io.EOF/reader error only with n=0 "
+          "and after all bytes read were delivered; for fault-free scripts the block sequence equals the one obtained "
+          "with bytes.Reader. Non-trivial: input longer than BufferSize with a chunked reader, or a fault that arrived "
+          "together with data."),
+    assumptions=ASSUME_COMMON + ["scripted readers obey the io.Reader contract; a stream that returned io.EOF stays ended"],
+)
+MANIFEST_TEXT["C08"] = dict(
+    engine="parser-history",
+    technique="property-based testing with scripted fault-injecting readers (rapid): round trip + differential on reader chunking",
+    level="Generated inputs x reader scripts (chunkings and fault placements drawn, not enumerated); exact round-trip oracle and a differential oracle against bytes.Reader.",
+    note=NOTE_PBT)
+CHECKS["C01"]["quick"]["tests"].append({"test": "TestC01Wrap", "checks": 1000, "subchecks": KINDS7})
+CHECKS["C01"]["thorough"]["tests"].append({"test": "TestC01Wrap", "checks": 3000, "subchecks": KINDS7})
+
+CHECKS["C16"] = {
+    "quick": {"tests": [
+        {"test": "TestC16", "checks": 2000, "subchecks": KINDS7},
+        {"test": "TestC16Wrap", "checks": 1000, "subchecks": KINDS7},
+        {"test": "TestC16Accept", "checks": 3000, "subchecks": KINDS7},
+        {"test": "TestC16Enum", "checks": 1, "subchecks": 21312},
+    ]},
+    "thorough": {"shards": 16, "tests": [
+        {"test": "TestC16", "checks": 8000, "subchecks": KINDS7},
+        {"test": "TestC16Wrap", "checks": 3000, "subchecks": KINDS7},
+        {"test": "TestC16Accept", "checks": 20000, "subchecks": KINDS7},
+    ]},
+    "rule": ("(1) acceptance: configurations of all 7 kinds with 0..all fields replaced by values of a boundary pool "
+             "{min int64, -1, 0, 1, 2, 7, 8, 9, 23, 24, 25, 128, 129, 2^31-1, 2^31, 2^32-8, 2^32-7, 2^32, max int64, small "
+             "randoms} (rapid) plus the full pool x pool enumeration of the interacting field groups (21312 configs, quick "
+             "tier): NewParser succeeds iff Verify of the defaults-completed clone is nil, never panics (NewParser is "
+             "skipped, counted, when the tables would exceed 2^22 entries). (2) robustness: parser histories with the full "
+             "op mix (Write, ReadFrom with faulting readers, Parse both flags, Parse(nil), Shrink, Reset(nil), Reset(data, "
+             "spare capacity, oversize), ReadAt, ByteAt) and WrappedParser histories with faulting readers and nil blocks: "
+             "no panic, no reader spin, watchdog for CPU loops, only documented errors. Non-trivial: (1) >= 2 non-zero "
+             "fields; (2) a boundary-valued config driven through >= 1 refill / wrap input longer than the buffer."),
+    "assumptions": ASSUME_COMMON + ["hash tables above 2^22 entries are verified for acceptance only, not allocated"],
+}
+MANIFEST_TEXT["C16"] = dict(
+    engine="config-algebra",
+    technique="property-based testing over a boundary-value pool + small-scope enumeration of interacting fields (acceptance); stateful PBT with fault injection (robustness)",
+    level="Exploration with an exhaustive small-scope part: the pool products of the interacting field groups are enumerated completely; histories are generated.",
+    note=NOTE_PBT)
